@@ -181,6 +181,12 @@ func Sw3(a uint32, v []byte) (uint32, []byte) {
 	return a, clone(w)
 }
 
+// two calls of one function literal in a single expression
+func Twice(a, b []byte) []byte {
+	dup := func(x []byte) []byte { return append([]byte{7}, x...) }
+	return append(dup(a), dup(b)...)
+}
+
 // a range loop that writes the slice it ranges over; a function that writes its slice parameter
 func Upper(s string) string {
 	b := []byte(s)
